@@ -1,4 +1,5 @@
 ------------------------------- MODULE MC_Fit -------------------------------
 EXTENDS Fit
 AllConfigs == [k : 0..3, n : {2, 3}, ntimes : 1..3, validation : BOOLEAN, optclass : BOOLEAN, lazy : BOOLEAN, init : {"default", "custom"}, pre_eval : BOOLEAN, extra : {FALSE}, stale : BOOLEAN]
+AllConfigsT == [k : 0..6, n : {1, 2, 3}, ntimes : 1..3, validation : BOOLEAN, optclass : BOOLEAN, lazy : BOOLEAN, init : {"default", "custom"}, pre_eval : BOOLEAN, extra : {FALSE}, stale : BOOLEAN]
 =============================================================================
